@@ -535,10 +535,16 @@ where
         }
 
         if self.prev_values.is_empty() {
-            self.save_state = self.state.clone();
-            if self.time.real() + self.dt.real() * self.order.real() >= self.end.real() {
-                self.dt = (self.end - self.time) / self.order;
+            // If the start-up steps and the multistep step that validates them do not fit
+            // before the end, the start-up steps would never be yielded: take single
+            // runge-kutta steps instead, each yielded as it is taken
+            if self.time.real() + self.dt.real() * (self.order + N::one()).real() >= self.end.real() {
+                self.runge_kutta(1)?;
+                self.prev_values.clear();
+                self.yield_memory = 0;
+                return Ok((self.time.real(), self.state.clone()));
             }
+            self.save_state = self.state.clone();
             self.runge_kutta(O)?;
             self.yield_memory = O + 1;
 
